@@ -3,7 +3,7 @@ use super::common::*;
 use crate::gen::{Aff, TSpec, TreeGen};
 use crate::regions::Config;
 use crate::report::{catch, par_cases, CaseOut, Report, Tier, Violation};
-use crate::snap::{conform, snap, Snap, TreeSide};
+use crate::snap::{conform_face, snap, Snap, TreeSide};
 use affinitree::pwl::afftree::AffTree;
 use serde_json::json;
 
@@ -60,6 +60,18 @@ pub fn cases(tier: Tier) -> Vec<Case> {
         if s.n_nodes() >= 8 && i % keep == 0 {
             out.push(Case { t: s, layout: (i % 3) as u8 });
         }
+    }
+    // terminals that coincide with a predicate (a terminal next to a decision holding the same matrix and bias)
+    let gp = TreeGen {
+        k: 2,
+        preds: vec![r1(&[1.0, 0.0], 0.0), r1(&[1.0, -1.0], 0.0)],
+        terms: vec![t.clone(), r1(&[1.0, 0.0], 0.0), r1(&[1.0, -1.0], 0.0)],
+        max_depth: 3,
+        max_nodes: if tier == Tier::Quick { 6 } else { 7 },
+        partial: true,
+    };
+    for (i, s) in gp.all().into_iter().enumerate() {
+        out.push(Case { t: s, layout: (i % 3) as u8 });
     }
     for levels in 1..=4 {
         for odd in [None, Some(&t1), Some(&t2)] {
@@ -129,12 +141,18 @@ pub fn run_case(c: &Case) -> CaseOut {
     let imp = TreeSide(&sa);
     let rf = TreeSide(&sb);
     let mut conf = 0u64;
+    let mut conf_errs: Vec<String> = vec![];
     let o = refine(sb.in_dim, &imp, &rf, &Config::default(), &mut out, &mut |face, _, _| {
-        if let Ok(true) = conform(&r, &sa, &face.w, true) {
-            conf += 1
+        let (n, e) = conform_face(&r, &sa, face, true);
+        conf += n;
+        if let Some(e) = e {
+            conf_errs.push(e);
         }
     });
     out.add("traces_validated_against_impl", conf);
+    if let Some(e) = conf_errs.first() {
+        viol(&mut out, "conformance", format!("real evaluator disagrees with documented routing: {e}"));
+    }
     if let Some(m) = o.mismatches.first() {
         viol(&mut out, "function", format!("reduce changed the function: {}", mismatch_summary(m)));
     }
@@ -193,8 +211,8 @@ pub fn run(tier: Tier) -> Report {
     let total = par_cases(&cs, |_, c| run_case(c));
     rep.absorb(total);
     rep.set("bound", match tier {
-        Tier::Quick => "all binary trees with <= 7 nodes and depth <= 4, every 37th tree with 8-9 nodes and depth <= 3, total and partial, over 2 predicates and 3 terminal maps {t, t+bias, t with one coefficient changed}; towers of equal leaves with 1-4 levels (optionally one odd leaf); three arena layouts incl. re-used indices",
-        Tier::Thorough => "same with every 11th tree with 8-10 nodes",
+        Tier::Quick => "all binary trees with <= 7 nodes and depth <= 4, every 37th tree with 8-9 nodes and depth <= 3, total and partial, over 2 predicates and 3 terminal maps {t, t+bias, t with one coefficient changed}; all trees with <= 6 nodes whose terminals may equal a predicate; towers of equal leaves with 1-4 levels (optionally one odd leaf); three arena layouts incl. re-used indices",
+        Tier::Thorough => "same with every 11th tree with 8-10 nodes, predicate-equal terminals up to 7 nodes",
     });
     rep.assume("exact comparison (reduce is syntactic): before == after on every face of the predicates' arrangement");
     rep
